@@ -55,7 +55,7 @@ func (c19) Budget(tier string) runner.Budget {
 
 func (c19) Describe() runner.Description {
 	return runner.Description{
-		Rule: "each history is 3..40 seeded group-chain operations on a booted node: AddGroup(valid successor; its unauthenticated GroupHeight wire field holds the right value, 0, a stale position, a later position or 2^64-1), AddGroup(wrong predecessor / unknown parent / duplicate), two different valid successors submitted concurrently under the seeded scheduler (exactly one may be accepted), remove-last-group (the operation a group-fork switch performs), restart. After every operation the invariant is checked on the live node AND (fault enumeration, exhaustive per history) on a fresh incarnation booted from the disk image taken right after that operation: LastGroup reachable from genesis by predecessor links, Count = list length, GetGroupByHeight(i) = i-th element for i<count and nil for i in [count,count+3], every listed group retrievable by id, removed ones not, GetSyncGroupsById = next <=5 successors; compared with a slice reference model. evaluations = invariant evaluations (live + restarted). distinct_nontrivial = distinct op-kind sequences containing a remove. Crash points INSIDE save/remove (between their individual store writes) are also booted; the property's quantifier only covers restarts after operations, so those images are only required to boot, and their self-consistency is reported as probes (midop_*), not as violations.",
+		Rule: "each history is 3..40 seeded group-chain operations on a booted node: AddGroup(valid successor; its unauthenticated GroupHeight wire field holds the right value, 0, a stale position, a later position or 2^64-1), AddGroup(wrong predecessor / unknown parent / duplicate / a valid successor whose begin time cannot be encoded by the store), two different valid successors submitted concurrently under the seeded scheduler (exactly one may be accepted), remove-last-group (the operation a group-fork switch performs), restart. After every operation the invariant is checked on the live node AND (fault enumeration, exhaustive per history) on a fresh incarnation booted from the disk image taken right after that operation: LastGroup reachable from genesis by predecessor links, Count = list length, GetGroupByHeight(i) = i-th element for i<count and nil for i in [count,count+3], every listed group retrievable by id, removed ones not, GetSyncGroupsById = next <=5 successors; compared with a slice reference model. evaluations = invariant evaluations (live + restarted). distinct_nontrivial = distinct op-kind sequences containing a remove. Crash points INSIDE save/remove (between their individual store writes) are also booted; the property's quantifier only covers restarts after operations, so those images are only required to boot, and their self-consistency is reported as probes (midop_*), not as violations.",
 		Assumptions: []string{"stub ConsensusHelper.CheckGroup accepts every group; group signatures are not what C19 is about", "the sqlite group index (second store) is not read by the oracle and starts empty in every incarnation"},
 		Real:        []string{"core/groupchain.go (AddGroup, save, remove, lookups, iterator, sync lookups)", "middleware/db + goleveldb on simulated storage", "middleware/mysql (sqlite group index)", "node boot: middleware, service, core init"},
 		Stub:        []string{"ConsensusHelper", "network (not started)", "NTP clock"},
@@ -86,7 +86,7 @@ func (c19) Gen(seed uint64, tier string) json.RawMessage {
 		case x < pRemove+0.08:
 			p.Ops = append(p.Ops, c19Op{K: "restart"})
 		case x < pRemove+0.2:
-			p.Ops = append(p.Ops, c19Op{K: "addbad", G: next, Bad: []string{"pre", "parent", "dup"}[r.Intn(3)]})
+			p.Ops = append(p.Ops, c19Op{K: "addbad", G: next, Bad: []string{"pre", "parent", "dup", "time"}[r.Intn(4)]})
 			next++
 		case x < pRemove+0.3:
 			// two different valid successors of the current last group submitted concurrently
@@ -243,6 +243,10 @@ func (c19) Exec(raw json.RawMessage, st *simrt.Stats, log *simrt.Log) *simrt.Vio
 				g.Header.Parent = c19ID(8888)
 			case "dup":
 				g.Id = m.list[len(m.list)-1]
+			case "time":
+				// a field outside the header hash that the store cannot encode (JSON refuses years above 9999): the
+				// group passes every check and must then be refused without leaving a trace
+				g.Header.BeginTime = time.Date(10000+op.G%50, 1, 1, 0, 0, 0, 0, time.UTC)
 			}
 			g.Header.Hash = g.Header.GenHash()
 			// the height field of a group object that arrives from a peer is not covered by the header hash: it
